@@ -27,6 +27,7 @@ type JobSpec struct {
 	Timeout   time.Duration
 	Overrides map[string]string
 	prefix    []int
+	core      bool // part of the quick tier: always run to completion, never subject to the thorough time budget
 }
 
 func (j JobSpec) label() string {
@@ -138,6 +139,10 @@ type RunCtx struct {
 	Samples   []interface{}
 	jobs      []JobSpec
 	mu        sync.Mutex
+	// thorough tier: wall-clock budget for the jobs beyond the quick tier's
+	Deadline  time.Time
+	BudgetMin int
+	Skipped   []string // jobs not completed within the budget (not run, or stopped part-way)
 }
 
 func (rc *RunCtx) inconclusive(format string, a ...interface{}) {
@@ -200,6 +205,30 @@ func CmdCheck(args []string) int {
 	var jobs []JobSpec
 	if p.Jobs != nil {
 		jobs = p.Jobs(rc)
+		if rc.Tier == "thorough" {
+			// thorough = the quick tier's jobs (always completed) followed by the deeper ones, which run under a
+			// wall-clock budget (VERIF_THOROUGH_BUDGET_MIN, default 30): what was not completed is listed in the evidence
+			rc.Tier = "quick"
+			core := p.Jobs(rc)
+			rc.Tier = "thorough"
+			seen := map[string]bool{}
+			var all []JobSpec
+			for _, j := range core {
+				j.core = true
+				seen[j.Set+"/"+j.label()] = true
+				all = append(all, j)
+			}
+			for _, j := range jobs {
+				if !seen[j.Set+"/"+j.label()] {
+					all = append(all, j)
+				}
+			}
+			jobs = all
+			rc.BudgetMin = 30
+			if v, err := strconv.Atoi(os.Getenv("VERIF_THOROUGH_BUDGET_MIN")); err == nil && v > 0 {
+				rc.BudgetMin = v
+			}
+		}
 	}
 	rc.jobs = jobs
 	if *only != "" {
@@ -240,6 +269,9 @@ func CmdCheck(args []string) int {
 		}
 		fmt.Printf("INCONCLUSIVE property=%s: %s\n", p.ID, s)
 	}
+	if len(rc.Skipped) > 0 {
+		fmt.Printf("NOTE property=%s thorough budget of %d min reached: %d jobs beyond the quick tier's were not completed (listed in the evidence under coverage.thorough_budget)\n", p.ID, rc.BudgetMin, len(rc.Skipped))
+	}
 	nPaths, nQ := 0, 0
 	for _, r := range rc.Results {
 		nPaths += r.Paths
@@ -263,6 +295,21 @@ func firstLine(s string) string {
 	return s
 }
 
+// jobTimeout caps a job's own time limit by what is left of the thorough budget (jobs of the quick tier are exempt).
+func (rc *RunCtx) jobTimeout(j JobSpec, d time.Duration) time.Duration {
+	if j.core || rc.Deadline.IsZero() {
+		return d
+	}
+	left := time.Until(rc.Deadline)
+	if left < 5*time.Second {
+		left = 5 * time.Second
+	}
+	if left < d {
+		return left
+	}
+	return d
+}
+
 func (rc *RunCtx) runOne(j JobSpec, solver string, tier string) *sym.JobResult {
 	cfg := sym.JobConfig{Harness: j.Fn, Pkg: PkgPath(j.Set), Params: j.Params, Unwind: j.Unwind, MaxPaths: j.MaxPaths,
 		Timeout: j.Timeout, Overrides: j.Overrides, Prefix: j.prefix, TraceEvery: 97, MaxTraces: 6}
@@ -271,10 +318,11 @@ func (rc *RunCtx) runOne(j JobSpec, solver string, tier string) *sym.JobResult {
 	}
 	if cfg.Timeout == 0 {
 		cfg.Timeout = 10 * time.Minute
-		if tier == "thorough" {
+		if tier == "thorough" && !j.core {
 			cfg.Timeout = 40 * time.Minute
 		}
 	}
+	cfg.Timeout = rc.jobTimeout(j, cfg.Timeout)
 	m, err := sym.NewMachine(rc.Ld, cfg, solver)
 	if err != nil {
 		rc.inconclusive("solver start failed: %v", err)
@@ -293,6 +341,17 @@ func (rc *RunCtx) runJobs(jobs []JobSpec, solver string) {
 	var queue []item
 	for _, j := range jobs {
 		queue = append(queue, item{j, j.Split > 0})
+	}
+	if rc.BudgetMin > 0 {
+		rc.Deadline = time.Now().Add(time.Duration(rc.BudgetMin) * time.Minute)
+	}
+	overBudget := func(j JobSpec) bool {
+		return !j.core && !rc.Deadline.IsZero() && time.Now().After(rc.Deadline)
+	}
+	skip := func(j JobSpec, how string) {
+		rc.mu.Lock()
+		rc.Skipped = append(rc.Skipped, j.label()+" ("+how+")")
+		rc.mu.Unlock()
 	}
 	// largest first is unknown; keep order
 	var wg sync.WaitGroup
@@ -313,6 +372,14 @@ func (rc *RunCtx) runJobs(jobs []JobSpec, solver string) {
 			it := queue[0]
 			queue = queue[1:]
 			mu.Unlock()
+			if overBudget(it.j) {
+				skip(it.j, "not started")
+				mu.Lock()
+				pending--
+				mu.Unlock()
+				cond.Broadcast()
+				continue
+			}
 			var res *sym.JobResult
 			func() {
 				defer func() {
@@ -322,7 +389,7 @@ func (rc *RunCtx) runJobs(jobs []JobSpec, solver string) {
 				}()
 				if it.frontier {
 					cfg := sym.JobConfig{Harness: it.j.Fn, Pkg: PkgPath(it.j.Set), Params: it.j.Params, Unwind: it.j.Unwind,
-						Overrides: it.j.Overrides, SplitDepth: it.j.Split, Timeout: 10 * time.Minute}
+						Overrides: it.j.Overrides, SplitDepth: it.j.Split, Timeout: rc.jobTimeout(it.j, 10*time.Minute)}
 					m, err := sym.NewMachine(rc.Ld, cfg, solver)
 					if err != nil {
 						rc.inconclusive("solver start failed: %v", err)
@@ -336,6 +403,22 @@ func (rc *RunCtx) runJobs(jobs []JobSpec, solver string) {
 			}()
 			if res != nil && (res.Wall > 20*time.Second || os.Getenv("SYMGO_VERBOSE") != "") {
 				fmt.Fprintf(os.Stderr, "job %s frontier=%v paths=%d wall=%.1fs ends=%v\n", it.j.label(), it.frontier, res.Paths, res.Wall.Seconds(), res.PathsByEnd)
+			}
+			if res != nil && overBudget(it.j) {
+				// stopped by the budget: what it explored counts, the rest is listed as not completed
+				var keep []string
+				cut := false
+				for _, x := range res.Inconclusive {
+					if strings.Contains(x, "time budget exhausted") {
+						cut = true
+						continue
+					}
+					keep = append(keep, x)
+				}
+				if cut {
+					res.Inconclusive = keep
+					skip(it.j, fmt.Sprintf("stopped after %d paths", res.Paths))
+				}
 			}
 			mu.Lock()
 			if res != nil {
@@ -683,6 +766,19 @@ func writeEvidence(rc *RunCtx, t0 time.Time, fatal []string) {
 	}
 	for k, v := range rc.Extra {
 		cov[k] = v
+	}
+	if rc.BudgetMin > 0 {
+		tb := map[string]interface{}{"minutes": rc.BudgetMin, "applies_to": "jobs beyond the quick tier's (those always run to completion)", "jobs_not_completed": len(rc.Skipped)}
+		if len(rc.Skipped) > 0 {
+			sk := append([]string{}, rc.Skipped...)
+			sort.Strings(sk)
+			if len(sk) > 60 {
+				sk = append(sk[:60], fmt.Sprintf("... and %d more", len(rc.Skipped)-60))
+			}
+			tb["not_completed"] = sk
+			tb["note"] = "the claim of this run covers the jobs that completed and the paths explored by the stopped ones; the listed jobs are outside it"
+		}
+		cov["thorough_budget"] = tb
 	}
 	ev := map[string]interface{}{
 		"property_id": p.ID,
